@@ -464,10 +464,27 @@ pub fn scenarios() -> Vec<Scn> {
           l2.lock().unwrap().push((i, rxverif_rt::tid(), false));
         }
         sch.abort();
+        // "runs the task synchronously in post" has no exception: after abort (a no-op for a scheduler
+        // without a queue), through a clone, and from inside a task that has just aborted
+        let l = l2.clone();
+        sch.post(move || l.lock().unwrap().push((3, rxverif_rt::tid(), true)));
+        l2.lock().unwrap().push((3, rxverif_rt::tid(), false));
+        let c = sch.clone();
+        let l = l2.clone();
+        c.post(move || l.lock().unwrap().push((4, rxverif_rt::tid(), true)));
+        l2.lock().unwrap().push((4, rxverif_rt::tid(), false));
+        let fresh = schedulers::default_scheduler()();
+        let (f2, l) = (fresh.clone(), l2.clone());
+        fresh.post(move || {
+          f2.abort();
+          let l3 = l.clone();
+          f2.post(move || l3.lock().unwrap().push((5, rxverif_rt::tid(), true)));
+        });
+        l2.lock().unwrap().push((5, rxverif_rt::tid(), false));
       });
       let check: Check = Box::new(move |e: &ExecEnd| {
         let l = log.lock().unwrap().clone();
-        let want: Vec<(i32, usize, bool)> = (0..3).flat_map(|i| vec![(i, 0usize, true), (i, 0usize, false)]).collect();
+        let want: Vec<(i32, usize, bool)> = (0..6).flat_map(|i| vec![(i, 0usize, true), (i, 0usize, false)]).collect();
         let mut v = base_violations(e, &[]);
         if l != want {
           v.push(viol("default-scheduler-not-synchronous", format!("{:?}", l)));
